@@ -68,11 +68,15 @@ class _RawWriter(io.RawIOBase):
 
 
 class FakeFS:
-    def __init__(self, files=None, dirs=(), plan=None):
+    def __init__(self, files=None, dirs=(), plan=None, locale_encoding='utf-8'):
         self.files = dict(files or {})
         self.dirs = set(dirs)
         self.plan = plan or FaultPlan()
         self.created = []
+        # the simulated process environment: what locale.getencoding() would say.  A text-mode open()
+        # without an explicit encoding decodes with it, exactly as CPython's open() does.
+        self.locale_encoding = locale_encoding
+        self.locale_reads = 0
 
     def open(self, path, mode='r', *args, **kw):
         path = os.fspath(path)
@@ -86,7 +90,11 @@ class FakeFS:
             raw = _RawReader(self, path, self.files[path])
             if 'b' in mode:
                 return io.BufferedReader(raw)
-            return io.TextIOWrapper(io.BufferedReader(raw), encoding=kw.get('encoding') or 'utf-8',
+            enc = kw.get('encoding') or (args[1] if len(args) > 1 else None)
+            if enc is None:
+                enc = self.locale_encoding
+                self.locale_reads += 1
+            return io.TextIOWrapper(io.BufferedReader(raw), encoding=enc,
                                     errors=kw.get('errors'), newline=kw.get('newline'))
         d = os.path.dirname(path)
         if d and d not in self.dirs and d not in ('.', '/'):
